@@ -38,6 +38,8 @@ var configs = []cfgSpec{
 	{"n4-equal", []uint64{1, 1, 1, 1}},
 	{"n4-3/2/1/1", []uint64{3, 2, 1, 1}},
 	{"n4-5/1/1/1", []uint64{5, 1, 1, 1}},
+	// total power above 2^63: 2*T does not fit in 64 bits
+	{"n4-whale", []uint64{1 << 62, 1 << 62, 2, 1}},
 }
 
 func cfgByName(n string) cfgSpec {
@@ -120,7 +122,8 @@ func committeeFromNode(n *env.Node, rootHeight uint64, model map[int]uint64) (*c
 	if len(c.keys) != len(model) {
 		return nil, fmt.Errorf("committee at root height %d has %d members, model %d", rootHeight, len(c.keys), len(model))
 	}
-	c.thr = (2*c.total)/3 + 1
+	// floor(2T/3)+1 without forming 2T (T may exceed 2^63): 2T/3 = 2*(T/3) + (2*(T%3))/3
+	c.thr = 2*(c.total/3) + (2*(c.total%3))/3 + 1
 	c.keyList = kl.String()
 	return c, nil
 }
@@ -245,6 +248,7 @@ type world struct {
 	nodeKey   int
 	lastStage string
 	sanity    map[string]cert
+	midRound  bool
 	primes    []tcase // honest non-committing certificates shown to every fresh node before the cases
 	quick     bool
 }
